@@ -13,9 +13,9 @@ Base == JsonDeserialize(IOEnv.BASE_FILE)   \* [nv, nc, pos, cells, ...]
 
 SubCycles(sub) == LET ids == SeqOfSetSorted(sub) IN [j \in DOMAIN ids |-> Base.cells[ids[j]]]
 
-Used(cycles) == UNION {Rg(cycles[c]) : c \in DOMAIN cycles}
+UsedV(cycles) == UNION {Rg(cycles[c]) : c \in DOMAIN cycles}
 Rank(used, v) == Cardinality({u \in used : u <= v})
-Renumber(cycles) == LET used == Used(cycles) IN
+Renumber(cycles) == LET used == UsedV(cycles) IN
                     [c \in DOMAIN cycles |-> [i \in DOMAIN cycles[c] |-> Rank(used, cycles[c][i])]]
 
 \* position (1-based) of an unordered pair in a sequence of pairs
@@ -40,7 +40,7 @@ NPairs(cycles) == Len(Dedup(AllPairs(cycles, 1), <<>>))
 \* the model mesh of (sub, k)
 SubMesh(sub, k) ==
   LET rc  == Renumber(SubCycles(sub))
-      nv0 == Cardinality(Used(SubCycles(sub)))
+      nv0 == Cardinality(UsedV(SubCycles(sub)))
       cyc == Subdivide(nv0, rc, k)
   IN  MeshOfCycles(nv0 + k * NPairs(rc), cyc)
 =============================================================================
